@@ -148,7 +148,16 @@ func (c capTE) GetPrivateClaimsFromTokenExchangeRequest(ctx context.Context, r o
 	for k, v := range s.CustomClaims {
 		out[k] = v
 	}
+	if s.Policy.ActChain && r.GetExchangeActor() != "" {
+		out["act"] = ActChainOf(r.GetExchangeActor())
+	}
 	return out, nil
+}
+
+// ActChainOf is the act claim the ActChain policy decides for a delegation by actor: the actor, acting on behalf of an
+// earlier actor (RFC 8693 section 4.1, nested delegation).
+func ActChainOf(actor string) map[string]any {
+	return map[string]any{"sub": actor, "act": map[string]any{"sub": "previous-actor"}}
 }
 
 func (c capTE) SetUserinfoFromTokenExchangeRequest(ctx context.Context, info *oidc.UserInfo, r op.TokenExchangeRequest) error {
@@ -160,6 +169,9 @@ func (c capTE) SetUserinfoFromTokenExchangeRequest(ctx context.Context, info *oi
 	defer s.mu.Unlock()
 	if s.Policy.Veto && s.Policy.VetoAt == "userinfo" {
 		return s.vetoLocked("SetUserinfoFromTokenExchangeRequest")
+	}
+	if s.Policy.ActChain && r.GetExchangeActor() != "" {
+		info.AppendClaims("act", ActChainOf(r.GetExchangeActor()))
 	}
 	if s.Users[r.GetSubject()] == nil {
 		info.Subject = r.GetSubject()
